@@ -26,6 +26,7 @@ def main(argv=None):
     ap.add_argument("--seed", type=int, default=int(os.environ.get("VERIF_SEED", "0") or 0))
     ap.add_argument("--replay", default=None)
     a = ap.parse_args(argv)
+    a.seed = abs(a.seed) % (1 << 31)      # any integer is a legal VERIF_SEED; TLC -seed and NumPy generators want 0 <= seed < 2^31
     try:
         build()
         mod = importlib.import_module("harness.props." + a.prop.lower())
